@@ -163,6 +163,8 @@ impl DBM {
                     VALUES (?1, ?2, ?3, ?4, ?5)",
                 params![tower_id.to_vec(), receipt.available_slots(), receipt.subscription_start(), receipt.subscription_expiry(), receipt.signature()]).map_err( Error::Unknown)?;
 
+        #[cfg(feature = "verif")]
+        let _after = teos_common::verif::around("cdb.commit.store_tower_record");
         tx.commit().map_err(Error::Unknown)
     }
 
@@ -322,6 +324,8 @@ impl DBM {
             "UPDATE towers SET available_slots=?1 WHERE tower_id=?2",
             params![available_slots, tower_id.to_vec()],
         )?;
+        #[cfg(feature = "verif")]
+        let _after = teos_common::verif::around("cdb.commit.store_appointment_receipt");
         tx.commit()
     }
 
@@ -456,6 +460,8 @@ impl DBM {
             params![appointment.locator.to_vec(), tower_id.to_vec(),],
         )?;
 
+        #[cfg(feature = "verif")]
+        let _after = teos_common::verif::around("cdb.commit.store_pending_appointment");
         tx.commit()
     }
 
@@ -502,6 +508,8 @@ impl DBM {
                 params![locator.to_vec(), tower_id.to_vec()],
             )?;
         };
+        #[cfg(feature = "verif")]
+        let _after = teos_common::verif::around("cdb.commit.delete_pending_appointment");
         tx.commit()
     }
 
@@ -525,6 +533,8 @@ impl DBM {
             params![appointment.locator.to_vec(), tower_id.to_vec(),],
         )?;
 
+        #[cfg(feature = "verif")]
+        let _after = teos_common::verif::around("cdb.commit.store_invalid_appointment");
         tx.commit()
     }
 
@@ -591,6 +601,8 @@ impl DBM {
             ],
         )?;
 
+        #[cfg(feature = "verif")]
+        let _after = teos_common::verif::around("cdb.commit.store_misbehaving_proof");
         tx.commit()
     }
 
